@@ -156,6 +156,9 @@ Ops(s) ==
 \cup (IF On("DeleteMulti")  THEN {[op |-> "DeleteMulti", b |-> b,
                                      objs |-> [i \in 1..Cardinality(ks) |-> [k |-> SeqOfSet(ks)[i], vid |-> ""]]]
                                     : b \in Buckets, ks \in KeySubsets} ELSE {})
+\cup (IF On("DeleteMultiQuiet") THEN {[op |-> "DeleteMulti", b |-> b, quiet |-> TRUE,
+                                     objs |-> [i \in 1..Cardinality(ks) |-> [k |-> SeqOfSet(ks)[i], vid |-> ""]]]
+                                    : b \in Buckets, ks \in KeySubsets} ELSE {})
 \cup (IF On("CopyObject")   THEN {[op |-> "CopyObject", sb |-> sb, sk |-> sk, b |-> b, k |-> k, meta |-> NoMeta]
                                     : sb \in Buckets, sk \in KeySet, b \in Buckets, k \in WKeySet} ELSE {})
 \cup (IF On("CopyMeta")     THEN {[op |-> "CopyObject", sb |-> sb, sk |-> sk, b |-> b, k |-> k, meta |-> MetaC]
